@@ -276,10 +276,13 @@ fn item_ok(z: &[Fq], sys: &Sys, it: &MatItem) -> Result<(), String> {
         MatItem::Coords { what, bits, per, native } => {
             use num_bigint::BigUint;
             let q = &crate::refmodel::Q.m;
-            let int = |cols: &[usize]| -> Option<BigUint> {
+            let int = |cols: &[Result<usize, bool>]| -> Option<BigUint> {
                 let mut n = BigUint::from(0u32);
                 for (i, c) in cols.iter().enumerate() {
-                    let v = z[sys.col_of_witness(*c)];
+                    let v = match c {
+                        Ok(col) => z[sys.col_of_witness(*col)],
+                        Err(b) => if *b { Fq::ONE } else { Fq::ZERO },
+                    };
                     if v == Fq::ONE {
                         n.set_bit(i as u64, true);
                     } else if v != Fq::ZERO {
@@ -376,6 +379,26 @@ pub fn targets(sys: &Sys, mat: &Mat, seed: u64, max: usize) -> Vec<(usize, Fq)> 
             }
             rest.push((col, cur + Fq::ONE));
             rest.push((col, Fq::ONE));
+        }
+    }
+    // the least and most significant bit of every run of at least 8 consecutive boolean witnesses (a bit
+    // decomposition allocates its bits consecutively): flipping the lowest one forces the re-derivation onto
+    // the non-canonical decomposition value + q
+    {
+        let mut col = lo;
+        while col < hi {
+            if is_bit(col) {
+                let start = col;
+                while col < hi && is_bit(col) {
+                    col += 1;
+                }
+                if col - start >= 8 {
+                    out.push((start, Fq::ONE - sys.z[start]));
+                    out.push((col - 1, Fq::ONE - sys.z[col - 1]));
+                }
+            } else {
+                col += 1;
+            }
         }
     }
     if rest.len() <= max {
